@@ -57,6 +57,7 @@ type GhostVar struct {
 	Name string
 	Sort string
 	Init string // optional initial-value term
+	Env  bool   // part of "*" (havocked and framed with it); other ghosts change only when named
 }
 
 type SMTBlock struct {
@@ -157,7 +158,13 @@ func (cs *Contracts) loadFile(path string) error {
 				if len(fs) < 2 {
 					return fmt.Errorf("%s: ghost NAME SORT", where)
 				}
-				g := &GhostVar{Name: fs[0], Sort: normSort(strings.Join(fs[1:], " "))}
+				env := false
+				if fs[len(fs)-1] == "env" && len(fs) > 2 {
+					// environment ghost: state of the outside world that any call modelled with "*" may change
+					env = true
+					fs = fs[:len(fs)-1]
+				}
+				g := &GhostVar{Name: fs[0], Sort: normSort(strings.Join(fs[1:], " ")), Env: env}
 				cs.Ghosts = append(cs.Ghosts, g)
 			case "smt":
 				curSMT = &SMTBlock{Name: rest}
@@ -412,7 +419,7 @@ func (cs *Contracts) ParseAll() error {
 			all = append(all, l...)
 		}
 		for _, cl := range all {
-			if cl.Kind == "decreases" || cl.Kind == "invariant" || cl.Kind == "step" || cl.Kind == "exit" || cl.Kind == "requires" || cl.Kind == "ensures" || cl.Kind == "ensures-on-panic" || cl.Kind == "assert" || cl.Kind == "closure-invariant" || cl.Kind == "free-requires" || cl.Kind == "trusted-ensures" || cl.Kind == "ghost-entry" || cl.Kind == "ghost-exit" || cl.Kind == "ensures-before-exit" || cl.Kind == "closure-ghost" {
+			if cl.Kind == "decreases" || cl.Kind == "invariant" || cl.Kind == "step" || cl.Kind == "exit" || cl.Kind == "entry" || cl.Kind == "requires" || cl.Kind == "ensures" || cl.Kind == "ensures-on-panic" || cl.Kind == "assert" || cl.Kind == "closure-invariant" || cl.Kind == "free-requires" || cl.Kind == "trusted-ensures" || cl.Kind == "ghost-entry" || cl.Kind == "ghost-exit" || cl.Kind == "ensures-before-exit" || cl.Kind == "closure-ghost" {
 				e, err := ParseExpr(cl.Text)
 				if err != nil {
 					return fmt.Errorf("%s: %v in %q", cl.Line, err, cl.Text)
